@@ -115,18 +115,25 @@ def check(case):
         return res
     # rhs_matrix -------------------------------------------------------------------------------------------
     res["evals"] += 1
+
+    def boolean_class(e):
+        """':boolean-used-arithmetically' when a sympy Boolean is handled as a number (`'BooleanTrue' object has no attribute 'diff'`) and
+        the TEXT of the derivatives (with what they depend on) uses a relational / logical value as a number: the listed finding (the
+        relational becomes decidable once the intermediates are substituted); anything else keeps the bare signature"""
+        return ":boolean-used-arithmetically" if isinstance(e, AttributeError) and "Boolean" in str(e) and ref.boolean_used_arithmetically(ref.deriv_names) else ""
+
     try:
         with cm.quiet():
             rm = sympytools.rhs_matrix(ode)
     except Exception as e:  # noqa: BLE001
-        add(f"rhs-matrix-raises:{cm.exc_name(e)}", f"rhs_matrix raises for an acyclic model (dependency depth {depth or dep_depth(ref)})", (), "matrix", cm.exc_name(e), cm.short(e))
+        add(f"rhs-matrix-raises:{cm.exc_name(e)}{boolean_class(e)}", f"rhs_matrix raises for an acyclic model (dependency depth {depth or dep_depth(ref)})", (), "matrix", cm.exc_name(e), cm.short(e))
         rm = None
     try:
         with cm.quiet():
             jm = sympytools.jacobi_matrix(ode)
     except Exception as e:  # noqa: BLE001
         if rm is not None:
-            add(f"jacobian-raises:{cm.exc_name(e)}", "jacobi_matrix raises although rhs_matrix works", (), "matrix", cm.exc_name(e), cm.short(e))
+            add(f"jacobian-raises:{cm.exc_name(e)}{boolean_class(e)}", "jacobi_matrix raises although rhs_matrix works", (), "matrix", cm.exc_name(e), cm.short(e))
         jm = None
     if rm is None:
         return res
